@@ -413,6 +413,13 @@ func c32Protocol(rt *rapid.T, rec *ev.Rec) {
 		}
 	}
 	ephD, ephD2 := c31Scalar(rt, "ephemeral"), c31Scalar(rt, "ephemeralOther")
+	// emptyParam: the remote end sends no key-agreement parameter at all. Such a session has no secret of its own, so
+	// nothing the peer signs is bound to it (it could be recorded and replayed): the node must not authenticate anybody
+	// in it. A correct node refuses during negotiation; that is counted, not demanded in any particular form.
+	emptyParam := rapid.IntRange(0, 5).Draw(rt, "emptyParam") == 0
+	refusedEarly := func(where string) {
+		rec.Case("protocol emptyParam: refused "+where, false, "protocol", "protocol:emptyParam", "protocol:emptyParamRefused")
+	}
 again:
 
 	mine, theirs := hnPipe() // mine: harness end, theirs: node end
@@ -458,18 +465,34 @@ again:
 			ev.Inconclusive("C32: the dialling node did not send a secure request")
 		}
 		nodeParam = req.SecureParam
+		myParam := eph.PublicKey()
+		if emptyParam {
+			myParam = nil
+		}
 		send(network.VerifProtoAuthSecureResponse, &network.SecureResponse{Channel: req.Channel, SecureSuite: network.SecureSuiteNone,
-			SecureAeadSuite: network.SecureAeadSuiteNone, SecureParam: eph.PublicKey()}, srcA)
+			SecureAeadSuite: network.SecureAeadSuiteNone, SecureParam: myParam}, srcA)
 	} else {
+		myParam := eph.PublicKey()
+		if emptyParam {
+			myParam = nil
+		}
 		send(network.VerifProtoAuthSecureRequest, &network.SecureRequest{Channel: "c32", SecureSuites: []network.SecureSuite{network.SecureSuiteNone},
-			SecureAeadSuites: []network.SecureAeadSuite{network.SecureAeadSuiteChaCha20Poly1305}, SecureParam: eph.PublicKey()}, srcA)
+			SecureAeadSuites: []network.SecureAeadSuite{network.SecureAeadSuiteChaCha20Poly1305}, SecureParam: myParam}, srcA)
 		var resp network.SecureResponse
 		if !recv(network.VerifProtoAuthSecureResponse, &resp) || resp.SecureSuite != network.SecureSuiteNone {
+			if emptyParam {
+				refusedEarly("in its secure response")
+				return
+			}
 			ev.Inconclusive("C32: the node did not answer the secure request with the plain suite")
 		}
 		nodeParam = resp.SecureParam
 	}
 	if sess.Closed() {
+		if emptyParam {
+			refusedEarly("by closing the connection during negotiation")
+			return
+		}
 		ev.Inconclusive("C32: the node closed the connection during suite negotiation")
 	}
 	// the session secret as the remote peer derives it, and that of a different session
@@ -481,13 +504,20 @@ again:
 	}
 	secret, other := eph.Extra(), eph2.Extra()
 	nodeSecret := sess.SessionSecret()
-	if !bytes.Equal(secret, nodeSecret) {
+	if emptyParam {
+		// the node went on without the peer's parameter: the peer signs whatever the node takes for the secret
+		secret = nodeSecret
+	} else if !bytes.Equal(secret, nodeSecret) {
 		ev.Inconclusive("C32: both ends derived different session secrets (%x / %x)", secret, nodeSecret)
 	}
 	if nodeDials {
 		// the node proves itself first; the harness does not care
 		var sr network.SignatureRequest
 		if !recv(network.VerifProtoAuthSignatureRequest, &sr) {
+			if emptyParam {
+				refusedEarly("by not going on to the signature step")
+				return
+			}
 			ev.Inconclusive("C32: the dialling node did not send its signature request")
 		}
 	}
@@ -523,6 +553,14 @@ again:
 		send(network.VerifProtoAuthSignatureResponse, &network.SignatureResponse{PublicKey: pub, Signature: sig, Error: errText}, srcA)
 	} else {
 		send(network.VerifProtoAuthSignatureRequest, &network.SignatureRequest{PublicKey: pub, Signature: sig}, srcA)
+	}
+	if emptyParam {
+		desc := fmt.Sprintf("protocol emptyParam nodeDials=%v class=%s pub=%x sig=%x nodeSecret=%x", nodeDials, class, pub, sig, nodeSecret)
+		rec.Case(desc, true, "protocol", "protocol:emptyParam", "protocol:emptyParamNodeWentOn")
+		if sess.Passed() {
+			rt.Fatalf("C32 violated: the node authenticated a peer (identity %x) in a session for which the peer sent no key-agreement parameter: no secret is bound to that session, so the accepted proof (a signature over %x) can be recorded and replayed | case: %s", sess.ID(), nodeSecret, desc)
+		}
+		return
 	}
 	if replaying && replaySig == nil {
 		// first, honest session of the replay class: must be authenticated, then start over on a new connection
